@@ -91,7 +91,25 @@ StackFamily ==
         (i + j) % NSHARDS = SHARD =>
             Emit({WhiteStack[k] : k \in 1..i} \cup {BlackStack[k] : k \in 1..j} \cup {<<35, Bl(Pawn)>>, <<7, W(King)>>, <<63, Bl(King)>>})
 
+\* MODE "swarm": exchanges that are still undecided after sixteen recaptures - only possible with promoted men.  Up to
+\* six minor pieces a side (four knights, two bishops: every trade is 300 for 300, so neither side is ever "ahead when it
+\* is its turn"), then the file batteries (rooks in front of queens) - up to ten white and nine black men on one pawn,
+\* exchanges of up to twenty captures.  The minor pieces have nothing behind them: See!Picks tries one of them.
+\* Variants put a queen IN FRONT of the minor pieces' trade partner (a black queen on e5 / white queen on c5 that the
+\* other side's swarm also attacks is not part of it: they stand beside the target) to shift who is ahead at the end.
+WhiteSwarm == << <<18, W(Knight)>>, <<20, W(Knight)>>, <<29, W(Knight)>>, <<25, W(Knight)>>, <<28, W(Bishop)>>, <<17, W(Bishop)>>,
+                 <<27, W(Rook)>>, <<19, W(Rook)>>, <<11, W(Queen)>>, <<3, W(Queen)>> >>
+BlackSwarm == << <<41, Bl(Knight)>>, <<45, Bl(Knight)>>, <<52, Bl(Knight)>>, <<50, Bl(Knight)>>, <<42, Bl(Bishop)>>, <<44, Bl(Bishop)>>,
+                 <<43, Bl(Rook)>>, <<51, Bl(Rook)>>, <<59, Bl(Queen)>> >>
+SwarmExtra == {{}, {<<36, Bl(Queen)>>}, {<<34, W(Queen)>>}, {<<36, Bl(Queen)>>, <<34, W(Queen)>>}, {<<53, Bl(Queen)>>, <<34, W(Queen)>>}}
+SwarmFamily ==
+    \A i \in 5..10 : \A j \in 5..9 : \A X \in SwarmExtra :
+        (i + j) % NSHARDS = SHARD /\ (DENSITY = 1 \/ i + j >= 16) =>
+            Emit({WhiteSwarm[k] : k \in 1..i} \cup {BlackSwarm[k] : k \in 1..j} \cup X
+                 \cup {<<35, Bl(Pawn)>>, <<6, W(King)>>, <<63, Bl(King)>>})
+
 Run == IF MODE = "stack" THEN StackFamily
+       ELSE IF MODE = "swarm" THEN SwarmFamily
        ELSE IF MODE = "rank" THEN RankFamily
        ELSE IF MODE = "battery" THEN BatteryFamily
        ELSE Config(27, WhiteD4, BlackD4, FALSE) /\ Config(59, WhiteD8, BlackD8, FALSE)
